@@ -84,6 +84,7 @@ def h_session(ctx, n=3, kind='T1', side='long', exch='futures', fast=False, tf='
     T = _template(ctx, kind, side, exch)
     cfg = S.config_dict(exchange_type=exch, leverage=2, fee=0.001, balance=10000.0)
     rec = S.run_session(S.make_candles(rows), T, cfg, timeframe=tf, fast=fast)
+    rec.refs['input_rows'] = rows
     check_session(ctx, rec, fast=fast)
     return None
 
@@ -94,6 +95,23 @@ def check_session(ctx, rec, fast=False, tag=''):
         # (e) pending market orders must have been flushed before the next matching call
         ctx.prove(len(m['pending_market']) == 0, 'C02e:market-order-flushed-before-next-candle')
         if m['mode'] == 'step':
+            rows = rec.refs.get('input_rows')
+            if rows is not None:
+                # the minute the matching works on is the INPUT candle with the documented gap normalisation only (open := previous
+                # close, high/low widened to it): the price path of the minute is defined on it, not on what the code handed over
+                c = m['candle']
+                i = int(round((c[0] - S.T0) / S.MIN))
+                if 0 <= i < len(rows):
+                    r = rows[i]
+                    if i == 0:
+                        eo, eh, el = r[1], r[3], r[4]
+                    else:
+                        pc = rows[i - 1][2]
+                        eo = pc
+                        eh = sx.smax(r[3], pc) if (sx.is_sym(r[3]) or sx.is_sym(pc)) else max(r[3], pc)
+                        el = sx.smin(r[4], pc) if (sx.is_sym(r[4]) or sx.is_sym(pc)) else min(r[4], pc)
+                    ctx.prove(And(ctx.equal(c[1], eo), ctx.equal(c[2], r[2]), ctx.equal(c[3], eh), ctx.equal(c[4], el)),
+                              'C02:simulated-minute-is-the-input-candle-with-the-documented-gap-normalisation', {'minute': i})
             total_fills += minute_obligations(ctx, rec, m, tag)
         else:
             total_fills += chunk_obligations(ctx, rec, m, tag)
